@@ -15,3 +15,4 @@ for l in sys.stdin:
         n+=1; print(j.get('type'), j.get('cls'), (j.get('detail') or '')[:400])
 "
 git -C /repo checkout -- .
+./verif build $var 2>&1 | tail -1   # leave the build in step with the clean tree
